@@ -144,7 +144,11 @@ def apply_contract(eng, st, c, args, kw, node, arg_exprs=(), kw_exprs=None, recv
     for nm, f in c.ensures:
         if nm.startswith("step."):
             continue          # internal proof step of the callee's own verification (mentions its locals)
-        st.assume(f(post))
+        try:
+            g = f(post)
+        except (AttributeError, KeyError):
+            continue          # the clause speaks about a local of the callee: not available to (and not assumed by) the caller
+        st.assume(g)
     return res if res is not None else NONE
 
 
